@@ -15,6 +15,18 @@ one() {
   id=$1
   d=/verif/seeded/$id
   prop=$(python3 -c "import json,re;m=json.load(open('$d/meta.json'));b=m.get('caught_by','');x=re.match(r'(C\d\d) ',b);print(x.group(1) if x else m['property'])")
+  # restrict the run to the harness named first in caught_by (when it names
+  # one of the property's harnesses); FULL=1 runs the whole quick check
+  only=$(PYTHONPATH=/verif /venv/bin/python -c "
+import json,re,importlib
+m=json.load(open('$d/meta.json'))
+mod=importlib.import_module('props.'+'$prop'.lower())
+names=sorted(set(list(getattr(mod,'HARNESSES',{}))+list(getattr(mod,'FUNCS',{}))),key=len,reverse=True)
+b=m.get('caught_by','')
+hits=[(b.find(n),n) for n in names if re.search(r'(?<![A-Za-z0-9_])'+re.escape(n)+r'(?![A-Za-z0-9_])',b)]
+print(min(hits)[1] if hits else '')
+" 2>/dev/null)
+  if [ -n "$FULL" ]; then only=""; fi
   wt=/tmp/wt_reg_$id
   git -C /repo worktree add --detach $wt HEAD >/dev/null 2>&1
   if ! git -C $wt apply $d/patch.diff 2>/dev/null; then
@@ -24,12 +36,16 @@ one() {
       return
     fi
   fi
-  NOTE_SEQ_REPO=$wt ./vcheck $prop > $OUT/$id.log 2>&1
-  echo "$? $prop" > $OUT/$id.rc
+  if [ -n "$only" ]; then
+    NOTE_SEQ_REPO=$wt ./vcheck $prop --only $only > $OUT/$id.log 2>&1
+  else
+    NOTE_SEQ_REPO=$wt ./vcheck $prop > $OUT/$id.log 2>&1
+  fi
+  echo "$? $prop $only" > $OUT/$id.rc
   git -C /repo worktree remove --force $wt
 }
 export -f one
 export OUT
-ls /verif/seeded | grep "^$PFX" | xargs -P $W -I{} bash -c 'one {}'
+ls /verif/seeded | grep "^$PFX" | while read id; do [ -f $OUT/$id.rc ] || echo $id; done | xargs -P $W -I{} bash -c 'one {}'
 echo "done"
 for f in $OUT/*.rc; do echo "$(basename $f .rc) $(cat $f)"; done | awk '$2!=1' | head -50
